@@ -51,6 +51,7 @@ THEOREMS = [
     "C14_replace_key_suggested_differs",
     "C14_convert_lookup_ignores_annotations",
     "C14_convert_everywhere_partial",
+    "C14_conversion_lookup_ignores_annotations_everywhere",
     "C14_convert_ignores_nested_annotations",
     "C14_top_level_strip_misses",
     "C14_box_option_incomplete",
@@ -111,6 +112,25 @@ def deep_strip(s):
             out[k] = {pk: deep_strip(pv) for pk, pv in v.items()}
         elif k in SUBSCHEMA_KEYS or k in ("allOf", "anyOf", "oneOf"):
             out[k] = deep_strip(v)
+        else:
+            out[k] = v
+    return out
+
+
+def strip_pn_free(s):
+    """deep_strip everywhere EXCEPT inside propertyNames (what the regressed comparison ignores)"""
+    if isinstance(s, list):
+        return [strip_pn_free(x) for x in s]
+    if not isinstance(s, dict):
+        return s
+    out = {}
+    for k, v in strip_meta(s).items():
+        if k == "propertyNames":
+            out[k] = v
+        elif k in ("properties", "patternProperties") and isinstance(v, dict):
+            out[k] = {pk: strip_pn_free(pv) for pk, pv in v.items()}
+        elif k in SUBSCHEMA_KEYS or k in ("allOf", "anyOf", "oneOf"):
+            out[k] = strip_pn_free(v)
         else:
             out[k] = v
     return out
@@ -810,6 +830,9 @@ def check_syntactic(doc, st, meta, g, base, viol, counts):
                 e = {"kind": "string"}
             if MUT == "convert-annotations-matter" and p["schema"] != cs:
                 e = {"kind": "string"}
+            if MUT == "annotations-in-propertyNames-matter" and "propertyNames" in json.dumps(cs) and \
+                    json.dumps(strip_pn_free(p["schema"]), sort_keys=True) != json.dumps(strip_pn_free(cs), sort_keys=True):
+                e = {"kind": "struct", "name": "(emulated) not converted"}
             n_here += 1
             counts["convert_sites"] += 1
             counts["convert_site:" + p["kind"]] += 1
@@ -1206,6 +1229,94 @@ def canon_answer(o):
 
 
 # --------------------------------------------------------------------------
+# ---- position-complete annotation sprinkling for conversion schemas
+ANNOTATION_SETS = [{"description": "annotated occurrence"}, {"title": "Annotated Occurrence"}, {"default": 1},
+                   {"examples": [1, "x"]}, {"readOnly": True}, {"writeOnly": True}, {"deprecated": True},
+                   {"$id": "urn:c14:occurrence"}]
+ALL_ANNOTATIONS = {k: v for a in ANNOTATION_SETS for k, v in a.items()}
+
+# conversion schemas of every shape; between them every subschema position of the schemars AST occurs:
+# properties.*, additionalProperties, propertyNames, patternProperties.*, items (single, tuple), additionalItems,
+# contains, allOf / anyOf / oneOf members, not  (if/then/else: the harness cannot run them, see notes)
+CONV_SHAPES = {
+    "Scalar": {"type": "string", "format": "date"},
+    "ObjProps": {"type": "object", "properties": {"a": {"type": "string"},
+                                                 "b": {"type": "array", "items": {"type": "integer"}}},
+                 "required": ["a"]},
+    "Keyed": {"type": "object", "propertyNames": {"type": "string", "pattern": "^k"},
+              "additionalProperties": {"type": "integer"}},
+    "KeyedAny": {"type": "object", "propertyNames": {"pattern": "^[a-z]+$"}},
+    "PatProps": {"type": "object", "patternProperties": {"^x": {"type": "string"}}, "additionalProperties": False},
+    "Array": {"type": "array", "items": {"type": "object", "properties": {"q": {"type": "boolean"}}}},
+    "Tuple": {"type": "array", "items": [{"type": "string"}, {"type": "integer"}],
+              "additionalItems": {"type": "boolean"}, "minItems": 2},
+    "Contains": {"type": "array", "contains": {"type": "integer"}},
+    "Nested": {"type": "object", "properties": {"o": {"type": "object", "properties": {
+        "i": {"type": "object", "propertyNames": {"maxLength": 3}, "additionalProperties": {"type": "string"}}}}}},
+    "AllOf": {"allOf": [{"type": "object", "properties": {"m": {"type": "string"}}},
+                        {"type": "object", "properties": {"n": {"type": "integer"}}}]},
+    "AnyOf": {"anyOf": [{"type": "string"}, {"type": "integer"}]},
+    "OneOf": {"oneOf": [{"type": "object", "properties": {"A": {"type": "integer"}}, "required": ["A"]},
+                        {"type": "null"}]},
+    "Not": {"type": "string", "not": {"enum": ["bad"]}},
+}
+
+
+def ann_positions(s, path=()):
+    """paths of every subschema (dict) position inside schema s, the root included"""
+    out = [path]
+    if not isinstance(s, dict):
+        return []
+    for k, v in s.items():
+        if k in ("properties", "patternProperties") and isinstance(v, dict):
+            for n in sorted(v):
+                out += ann_positions(v[n], path + (k, n))
+        elif k in SUBSCHEMA_KEYS and isinstance(v, dict):
+            out += ann_positions(v, path + (k,))
+        elif k in ("items", "allOf", "anyOf", "oneOf") and isinstance(v, list):
+            for i, x in enumerate(v):
+                out += ann_positions(x, path + (k, i))
+    return out
+
+
+def annotate_at(s, path, ann):
+    s = copy.deepcopy(s)
+    cur = s
+    for k in path:
+        cur = cur[k]
+    for k, v in ann.items():
+        cur.setdefault(k, copy.deepcopy(v))
+    return s
+
+
+def occurrences_holder(shape):
+    """an object definition with one property per subschema position of `shape`, carrying an annotation there
+    (the kinds of annotation rotate over the positions), plus one occurrence annotated EVERYWHERE with everything"""
+    props = {}
+    poss = ann_positions(shape)
+    for k, pth in enumerate(poss):
+        props["o%d" % k] = annotate_at(shape, pth, ANNOTATION_SETS[k % len(ANNOTATION_SETS)])
+        props["t%d" % k] = annotate_at(shape, pth, ANNOTATION_SETS[(k + 1) % 2])       # description / title
+    everything = shape
+    for pth in poss:
+        everything = annotate_at(everything, pth, ALL_ANNOTATIONS)
+    props["all"] = everything
+    return {"type": "object", "properties": props}, len(poss)
+
+
+def conv_position_case(doc, shapes):
+    """(document', settings, meta): `doc` plus one holder definition per conversion schema"""
+    d2 = copy.deepcopy(doc)
+    conv, meta_conv = [], []
+    for name, sh in shapes.items():
+        holder, n = occurrences_holder(sh)
+        d2.setdefault("definitions", {})["C14Occ" + name] = holder
+        conv.append({"schema": copy.deepcopy(sh), "type": "::serde_json::Value", "impls": []})
+        meta_conv.append({"schema": strip_meta(sh), "type": "::serde_json::Value", "impls": [], "positions": n})
+    st = {"convert": conv}
+    return d2, st, {"replace": {}, "convert": meta_conv, "patch": {}, "derives": [], "map_type": MAP_TYPES[0]}
+
+
 KEY_SHAPES = [None, {"pattern": "^[a-z]+$"}, {"$ref": "#/definitions/C14Key"}, {"enum": ["ka", "kb"]},
               {"format": "uuid"}, {"type": "string", "maxLength": 4}]
 VALUE_SHAPES = ["absent", True, {}, {"type": "integer"}, {"type": "string", "maxLength": 3}, "ref"]
@@ -1378,7 +1489,7 @@ def run(ctx):
         metas.append(None)
         owner.append(di)
         kinds.append("base")
-        if not gen_ok(g):
+        if not gen_ok(g) and not d.get("scan_only"):
             continue
         if d.get("fixed_settings") is not None:
             fixed = d["fixed_settings"]
@@ -1386,7 +1497,8 @@ def run(ctx):
                 fixed = fixed[::2]          # large curated documents: every other assignment in the quick tier
             for fs in fixed:
                 if d.get("scan_only"):
-                    so.append((di, fs, meta_from_settings(d["doc"], g, fs)))
+                    gb = g if gen_ok(g) else {"dump": {"entries": {}, "ref_to_id": {}}}
+                    so.append((di, fs, meta_from_settings(d["doc"], gb, fs), None))
                     continue
                 cases.append(case_of(d["doc"], fs, d.get("extra_steps")))
                 metas.append(meta_from_settings(d["doc"], g, fs))
@@ -1406,7 +1518,18 @@ def run(ctx):
             if rnd.random() < 0.5:
                 st["derives"] = [MARK2]
             so.append((di, st, {"replace": {}, "convert": [], "patch": pm, "derives": st.get("derives", []),
-                                "map_type": MAP_TYPES[0]}))
+                                "map_type": MAP_TYPES[0]}, None))
+        # scan-only: position-complete annotations for a conversion schema taken from the document and for one of
+        # the curated shapes (own document: the holder definitions are added)
+        tp = [sx for _, sx in type_positions(d["doc"]) if isinstance(sx, dict) and len(ann_positions(strip_meta(sx))) > 1
+              and "$ref" not in json.dumps(sx) and not isinstance(sx.get("type"), list)]
+        shapes = {}
+        if tp:
+            shapes["FromDoc"] = deep_strip(rnd.choice(tp))
+        nm = rnd.choice(sorted(CONV_SHAPES))
+        shapes[nm] = CONV_SHAPES[nm]
+        d2, st2, meta2 = conv_position_case(d["doc"], shapes)
+        so.append((di, st2, meta2, d2))
         forces = [{"replace", "map"}, {"convert", "map", "derives"}, {"patch", "builder"}]
         for k in range(n_sig):
             st, meta = pick_settings(rnd, d["doc"], g, force=forces[k] if k < len(forces) and rnd.random() < 0.5 else None)
@@ -1526,15 +1649,55 @@ def run(ctx):
     # ---- scan-only stream (marker derives on every kind of named type; defaults present / absent)
     so_gens = []
     if so:
-        res = vlib.run_vh("gen", [dict(case_of(docs[o]["doc"], st, docs[o].get("extra_steps")), code=False)
-                                  for o, st, _ in so])
-        for (o, st, meta), r in zip(so, res):
-            if not gen_ok(r) or not gen_ok(w.gen[base_idx[o]]):
+        res = vlib.run_vh("gen", [dict(case_of(dx if dx is not None else docs[o]["doc"], st, docs[o].get("extra_steps")),
+                                       code=False) for o, st, _, dx in so])
+        for (o, st, meta, dx), r in zip(so, res):
+            gb = w.gen[base_idx[o]]
+            if dx is not None or not gen_ok(gb):
+                gb = r       # own document / default run rejected (exotic keywords): no default-settings twin
+            if not gen_ok(r):
                 skipped["scan-only-not-generated"] += 1
+                if any("positions" in c for c in meta["convert"]):
+                    # every occurrence should have been converted, so nothing in them can be rejected: find the
+                    # occurrence(s) responsible, one document per occurrence
+                    full = dx if dx is not None else docs[o]["doc"]
+                    singles = []
+                    for hn in sorted(full["definitions"]):
+                        if not hn.startswith("C14Occ"):
+                            continue
+                        for pn in sorted(full["definitions"][hn]["properties"]):
+                            d1 = {"definitions": {k: v for k, v in full["definitions"].items() if not k.startswith("C14Occ")}}
+                            d1["definitions"][hn] = {"type": "object", "properties": {pn: full["definitions"][hn]["properties"][pn]}}
+                            singles.append(d1)
+                    singles = singles[:120]
+                    found = False
+                    for d1, r1 in zip(singles, vlib.run_vh("gen", [dict(case_of(d1, st), code=False) for d1 in singles])):
+                        if gen_ok(r1):
+                            nv = len(viol)
+                            check_syntactic(d1, st, meta, r1, r1, viol, counts)
+                        else:
+                            nv = len(viol)
+                            viol.append({"kind": "occurrence-of-conversion-schema-rejected-instead-of-converted",
+                                         "settings": st, "document": d1, "steps": r1.get("steps")})
+                        for v in viol[nv:]:
+                            v["src"] = docs[o]["src"]
+                            found = True
+                    if not found:
+                        viol.append({"kind": "document-with-converted-occurrences-rejected", "settings": st,
+                                     "document": full, "src": docs[o]["src"], "steps": r.get("steps")})
                 continue
             counts["scan_only_modules"] += 1
             nv = len(viol)
-            check_syntactic(docs[o]["doc"], st, meta, r, w.gen[base_idx[o]], viol, counts)
+            before = counts["convert_sites"]
+            check_syntactic(dx if dx is not None else docs[o]["doc"], st, meta, r, gb, viol, counts)
+            want = sum(2 * c["positions"] + 1 for c in meta["convert"] if "positions" in c)
+            if want:
+                counts["annotated_occurrences_expected"] += want
+                counts["annotated_occurrences_reached"] += counts["convert_sites"] - before
+                if counts["convert_sites"] - before < want:
+                    viol.append({"kind": "annotated-occurrences-not-reached-by-the-walk", "settings": st,
+                                 "document": dx if dx is not None else docs[o]["doc"], "src": docs[o]["src"],
+                                 "expected": want, "reached": counts["convert_sites"] - before})
             for v in viol[nv:]:
                 v["src"] = docs[o]["src"]
             so_gens.append((st, r))
